@@ -1,7 +1,7 @@
 (* RunCuckoo.v — token-level driver for the in-memory cuckoo machine (machine 7).
    The hash is the concrete murmur model (repo code). *)
-From GX.Model Require Import Base Murmur Cuckoo.
-From GX.Runner Require Import RunCMS.
+From GX.Model Require Import Base Murmur Cuckoo Codec Persist.
+From GX.Runner Require Import RunCMS RunGeneric.
 
 Definition tbucket (b : bucket) : tok := TL [TN (k_size b); TN (k_len b); tlistB (k_slots b)].
 Definition tstate (f : cuckoo) : tok := TL [TN (q_len f); TL (map tbucket (q_buckets f))].
@@ -61,10 +61,22 @@ Definition ck_step (st : list (option cuckoo)) (op : tok) : list (option cuckoo)
   | _ => (st, T_INVALID)
   end.
 
+Definition ck_mut (f : cuckoo) (args : list tok) : cuckoo :=
+  match args with
+  | [TN b; TN s; TB fp] =>
+      mkCuckoo (q_size f) (q_bsize f) (q_fpl f) (q_retries f) (q_len f)
+               (upd (q_buckets f) (N.to_nat b) (fun bk => bk_set bk (N.to_nat s) fp))
+  | _ => f
+  end.
+Definition ck_gen := @gen_step cuckoo enc_cuckoo cuckoo_write_ret dec_cuckoo ck_equals
+                       doc_cuckoo imp_cuckoo ck_mut.
+
 Fixpoint ck_run (st : list (option cuckoo)) (ops : list tok) : list tok :=
   match ops with
   | [] => []
-  | op :: t => let r := ck_step st op in snd r :: ck_run (fst r) t
+  | op :: t =>
+      let r := if is_generic op then ck_gen st op else ck_step st op in
+      snd r :: ck_run (fst r) t
   end.
 
 Definition run_cuckoo_case (c : list tok) : tok :=
